@@ -673,8 +673,8 @@ def run_workflow_case(ctx: Ctx, case) -> None:
 
 def check(ctx: Ctx) -> None:
     C.quiet_logs()
-    ctx.given(backend_cases, lambda c: run_backend_case(ctx, c), ctx.n(300, 16000))
-    ctx.given(workflow_cases(), lambda c: run_workflow_case(ctx, c), ctx.n(80, 3200))
+    ctx.given(backend_cases, lambda c: run_backend_case(ctx, c), ctx.n(300, 14000))
+    ctx.given(workflow_cases(), lambda c: run_workflow_case(ctx, c), ctx.n(80, 2000))
 
 
 def replay(ctx: Ctx, case) -> None:
